@@ -79,6 +79,11 @@ CLAIMED = {
    text="Operand order of every control composition, the float-time->step expression, the tensor-leg wiring of both superoperator applications and the statement order of the compute_dynamics and PtTebd step loops are regenerated from the source into Lean on every run. Theorems proved for all step counts, control assignments and call histories: each control acts exactly once, at its step, before (pre) or after (post) the recorded state, first and last step included; get_controls is fully characterised, each landing call contributing exactly one factor; same-key stacks and ChainControl stacks act in insertion order; float times act at the round-half-even nearest step with explicit binary64 error bound; identity controls change nothing; PtTebd follows the same pre/post rules per site. The executable model is run against the real Control, ChainControl, compute_dynamics and PtTebd on generated schedules (every step 0..N, pre/post, int/float keys, stacks 1-3, non-trace-preserving maps, 2-3 sites) comparing all recorded states. Insertion order for int- and float-keyed controls on one step does not hold (known finding); the theorem is stack_order_partial.",
    ref="§4 C18",
    note=TB + "exact binary64 model without overflow/subnormal/NaN, dt>0; Array-based matrix instance assumed to be matrix multiplication (compared with numpy on every case); PtTebd nn-gate layers/process tensors enter as arbitrary maps (correspondence only without environments, product states); expm propagators shipped to the model as data."),
+ "C07": dict(
+   technique="Lean 4 proof on an executable model of the time bookkeeping + source translator (CorrTimes) + exhaustive differential correspondence with tagged values",
+   text="For every number of operators and every list of time specifications, the Lean theorem `aligned` shows that an entry of the array returned by compute_correlations_nt is NaN exactly when the steps at its indices are not time ordered and otherwise is the value computed for exactly those steps; `axes_grid` shows the returned axes are start+dt*step of the parsed steps, `parse_interval`/`parse_list`/`parse_in_range` cover intervals in either direction and lists in any order, `anti_index`/`anti_conj` cover the anti ordering, `dt_governs` that the dt labelling the axes is the dt of the propagators. The arithmetic of _parse_times, the mask/index write-back shape, the order test and the dt keyword plumbing are regenerated from the source on every run, so the proofs break when the code changes (they did on the four repaired defects). The control flow of the model is compared with the real code on every int/slice/short list/float/interval spec over grids N<=4 (quick) / N<=6 (thorough) and on every pair of distinct parsed step lists (N<=3 / N<=5), ordered and anti, plus sampled 3-4 operator calls, with bit-exact axes and per-entry step tuples; unmodified runs with a time-dependent system confirm the value tagging.",
+   ref="§4 C07",
+   note=TB + "tagged stand-in for _compute_ordered_nt_correlations (cross-checked by unwrapped runs); binary64 model without overflow/NaN, dt != 0; numpy/CPython indexing semantics checked by enumeration only; values abstract (contraction correctness is C03/C18), Hermiticity preservation assumed in anti_conj (C04); NOT shown: bath_dynamics kernels / displaced-oscillator closed form."),
  "C13": dict(
    technique="Lean 4 proof over a model regenerated from source (translator) + differential correspondence",
    text=("Step-count and label expressions of all APIs are regenerated from the source into Lean on every run; "
